@@ -28,7 +28,7 @@ impl Property for C20 {
         (projgen::proj_strategy(), any::<u8>()).prop_map(|(proj, neg)| Case { proj, neg }).boxed()
     }
     fn cases(&self, tier: Tier) -> usize {
-        tier.pick(400, 8_000)
+        tier.pick(200, 8_000)
     }
     fn mode(&self) -> Mode {
         Mode::Workers
